@@ -340,18 +340,17 @@ def matches(st: REF.State, cmd: dict, ob: dict) -> T.Optional[str]:
         if key in st.spec or k.endswith(RUN.BUILTIN):
             if got.get(k) != st.rec.get(k):
                 return f'cmdline:{k}'
-    # introspection file: own values; comparable for options that neither inherit nor are overridden
+    # introspection file: one row per project option (+ the builtin, + one row per subproject override of it),
+    # each showing the effective value
     it = ob['intro']
     if it is None:
         return 'intro:absent'
-    names = {intro_key(n) for n in it}
-    if names != set(st.val) | {'top:' + RUN.BUILTIN}:
+    want = {k: v for k, v in eff.items() if k in st.val or k == 'top:' + RUN.BUILTIN or k in st.override}
+    got_it = {intro_key(n): v for n, v in it.items()}
+    if set(got_it) != set(want):
         return 'intro:keys'
-    for n, v in it.items():
-        k = intro_key(n)
-        if k.startswith('sub:') and (st.inherits.get(k) or k in st.override):
-            continue
-        if eff.get(k) != v:
+    for k in sorted(want):
+        if want[k] != got_it[k]:
             return f'intro:{k}'
     return None
 
